@@ -40,7 +40,7 @@ json gen_family_text(Rng &r, int tier)
 	fs.push_back(fs_file("/inc/self.conf", "# again\ninclude(\"/inc/self.conf\")\n"));
 	fs.push_back({{"path", "/inc"}, {"kind", "dir"}});
 	plan["world"] = {{"fs", fs}, {"env", {{"X", "1"}}}};
-	plan["knobs"] = {{"fill", r.chance(1, 2) ? 0xA5 : 0x00}, {"tty", r.chance(1, 6)}};
+	plan["knobs"] = {{"fill", r.chance(1, 2) ? 0xA5 : 0x00}, {"tty", r.chance(1, 6)}, {"recycle", r.chance(1, 2)}};
 	json steps = json::array();
 	json init = step(0, "init", 0);
 	init["flags"] = flags;
